@@ -39,9 +39,11 @@ import functools
 import glob
 import hashlib
 import itertools
+import multiprocessing
 import os
 import shutil
 import signal
+import sys
 import tempfile
 
 from mc import env  # noqa: F401  (binds desper to $VERIF_REPO; keep first)
@@ -656,7 +658,16 @@ def _drop_base(owner=None):
         return                      # forked worker: the parent removes it
     base, _BASE[0] = _BASE[0], None
     if base:
-        shutil.rmtree(base, ignore_errors=True)
+        # cut the directory off first: whoever still builds a tree under
+        # the old name fails from now on and can add nothing while the
+        # content (FIFOs and dangling links included: rmtree unlinks them,
+        # it neither opens nor follows them) is removed
+        dead = base + '.gone'
+        try:
+            os.rename(base, dead)
+        except OSError:
+            dead = base
+        shutil.rmtree(dead, ignore_errors=True)
     _WORK.update(pid=None, dir=None)
 
 
@@ -1541,19 +1552,65 @@ REQUIRED_UNLESS_VIOLATED = dict(
 
 
 def _term(signum, frame):
-    raise SystemExit(128 + signum)
+    """SIGTERM in the parent (``timeout`` signals the whole process group).
+
+    The workers die at once (default action) - possibly while holding a lock
+    of the pool's queues, and ``Pool.terminate()`` in the parent then waits
+    for that lock for ever (observed: the run hung after ``timeout`` fired
+    and its scratch directory stayed).  So the parent does not unwind through
+    the pool: it makes sure the workers are gone, removes the scratch
+    directory with everything in it and leaves."""
+    if _TERMINATING:
+        return
+    _TERMINATING.append(signum)
+    try:
+        children = multiprocessing.active_children()
+        for proc in children:
+            proc.kill()
+        for proc in children:
+            proc.join(2)
+    except Exception:               # noqa: BLE001
+        pass
+    _drop_base()
+    try:
+        sys.stdout.flush()
+        sys.stderr.flush()
+    except Exception:               # noqa: BLE001
+        pass
+    os._exit(128 + signum)
+
+
+_TERMINATING = []
 
 
 def _default_sigterm_in_child():
     """Forked pool workers must die on SIGTERM at once (``Pool.terminate``
     relies on it: a worker forked while the pool shuts down can sit in a
     lock where a Python-level handler never runs, and the parent would join
-    it for ever - observed).  Only the parent turns SIGTERM into cleanup."""
+    it for ever - observed).  Only the parent turns SIGTERM into cleanup.
+
+    They must also never outlive the parent: the pool keeps forking
+    replacements for dead workers, also while the parent is on its way out,
+    and such a worker can wait for ever for a queue lock that a killed
+    sibling held (observed: orphans left behind).  PR_SET_PDEATHSIG makes
+    the kernel kill a worker as soon as the (thread of the) parent that
+    forked it is gone, however the parent dies."""
     try:
         if signal.getsignal(signal.SIGTERM) is _term:
             signal.signal(signal.SIGTERM, signal.SIG_DFL)
     except (ValueError, OSError):
         pass
+    if _PARENT_PID[0] is not None:
+        try:
+            import ctypes
+            ctypes.CDLL(None, use_errno=True).prctl(1, signal.SIGKILL)
+            if os.getppid() != _PARENT_PID[0]:   # died before the call
+                os._exit(1)
+        except (OSError, AttributeError):
+            pass
+
+
+_PARENT_PID = [None]        # set while a _Scratch is open (run / replay)
 
 
 os.register_at_fork(after_in_child=_default_sigterm_in_child)
@@ -1561,10 +1618,10 @@ os.register_at_fork(after_in_child=_default_sigterm_in_child)
 
 class _Scratch:
     """Creates the private directory and removes it whatever happens
-    (SIGTERM from ``timeout`` included: in the parent it is turned into
-    SystemExit so that the pool is terminated and the ``finally`` clauses
-    run; workers keep the default action and the parent removes their
-    directories with the base directory)."""
+    (SIGTERM from ``timeout`` included: the parent kills its workers,
+    removes the base directory - with the workers' directories and every
+    FIFO / symbolic link in them - and exits, see ``_term``; workers keep
+    the default action)."""
 
     def __enter__(self):
         self._old = None
@@ -1573,9 +1630,11 @@ class _Scratch:
         except ValueError:          # not in the main thread
             pass
         _make_base()
+        _PARENT_PID[0] = os.getpid()
         return self
 
     def __exit__(self, *exc):
+        _PARENT_PID[0] = None
         _drop_base()
         if self._old is not None:
             signal.signal(signal.SIGTERM, self._old)
